@@ -2,6 +2,7 @@
 mod cexec;
 mod cp437;
 mod eexec;
+mod fexec;
 mod lexer;
 mod rexec;
 mod sexec;
@@ -22,6 +23,7 @@ fn main() {
         "eexec" => eexec::main_eexec(rest),
         "sexec" => sexec::main_sexec(rest),
         "cexec" => cexec::main_cexec(rest),
+        "fexec" => fexec::main_fexec(rest),
         "lex" => {
             let b = std::fs::read(&rest[0]).expect("read");
             let o = lexer::LexOpts { allow_trailing: true, ..Default::default() };
